@@ -509,6 +509,14 @@ func genSpecs(r *rand.Rand, thorough bool) []*Spec {
 			s.DelayUs = 100 + r.Intn(900)
 		}
 		s.VaryTopic = i%4 >= 2
+		if i%3 != 2 {
+			// a backlog inside the subscriber when Unsubscribe is called
+			s.DelayUs = 300 + r.Intn(900)
+			s.Burst = 20 + r.Intn(40)
+			if s.Broker == "stomp" {
+				s.Burst = 2 + r.Intn(7) // see the note on go-stomp above
+			}
+		}
 		out = append(out, s)
 	}
 	// the ordinary two-subscriber sequences (malformed / foreign / Unsubscribe)
